@@ -18,7 +18,8 @@ package c09
 // simulate mode on a branch of the check state).  Injection points: at the k-th yield, between
 // BeginBlock and the tx ("pre"), after the tx ("post"), after Commit ("interblock").
 //
-// The same block is executed on a second replica built from the same genesis bytes WITHOUT the
+// The block holds a second, plain EVM transfer (S -> Z) after the scenario tx, so "post" is an injection
+// between two transactions.  The same block is executed on a second replica built from the same genesis bytes WITHOUT the
 // queries.  Observables: app hashes of the scenario block and of the following empty block equal?,
 // DeliverTx response equal?, committed unibi balances of the scenario accounts K, X, Y, Z on both
 // replicas, outcome class of every query.
@@ -92,12 +93,13 @@ type c09Input struct {
 type c09Obs struct {
 	HashEq   bool     `json:"hash_eq"`  // app hash of the scenario block equal on both replicas
 	NextEq   bool     `json:"next_eq"`  // app hash of the following (empty) block equal
-	TxEq     bool     `json:"tx_eq"`    // DeliverTx response (code, data, gas, events) equal
-	TxOK     bool     `json:"tx_ok"`    // tx code 0 on the replica WITH queries
+	TxEq     bool     `json:"tx_eq"`    // DeliverTx responses of both txs (code, data, gas, events) equal
+	TxOK     bool     `json:"tx_ok"`    // both tx codes 0 on the replica WITH queries
 	BaseOK   bool     `json:"base_ok"`  // … on the replica without
 	Base     []string `json:"base"`     // unibi of K, X, Y, Z, S (signer), F (fee collector), C without queries
 	With     []string `json:"with"`     // … with queries
-	Gas      [2]int64 `json:"gas"`      // gas used by the tx: without, with queries
+	Gas      [2]int64 `json:"gas"`      // gas used by the scenario tx: without, with queries
+	Gas2     [2]int64 `json:"gas2"`     // gas used by the tail tx (S sends 1000000 unibi to Z): without, with queries
 	QRes     []string `json:"qres"`     // per query: ok | vmerr | err | panic
 	QGas     []int64  `json:"qgas"`     // per query: gas used by a simulated tx (0 for other kinds)
 	Injected bool     `json:"injected"` // the injection point was reached
@@ -158,6 +160,8 @@ type world struct {
 }
 
 const gasPriceWei = 1_000_000_000_000 // 1 unibi per gas
+const tailGasLimit = 100_000
+const tailAmount = 1_000_000
 
 func newWorld(t *testing.T, in *c09Input) *world {
 	a := app.NewNibiruApp(log.NewNopLogger(), tmdb.NewMemDB(), nil, true, sims.EmptyAppOptions{})
@@ -437,7 +441,7 @@ type runOut struct {
 	tx         []byte
 	txOK       bool
 	bal        []string
-	gas        int64
+	gas, gas2  int64
 	qres       []string
 	qgas       []int64
 	injected   bool
@@ -503,6 +507,23 @@ func runReplica(t *testing.T, in *c09Input, withQueries bool) runOut {
 	if in.Point == "post" {
 		inject()
 	}
+	// a second, plain transaction in the same block: "post" is an injection BETWEEN two transactions
+	msg2, err := c.SignEth(w.S, &evm.EvmTxArgs{Nonce: 1, GasLimit: tailGasLimit, GasPrice: big.NewInt(gasPriceWei), To: &w.Z, Amount: unibiWei(tailAmount)})
+	if err != nil {
+		t.Fatal(err)
+	}
+	var r2 abci.ResponseDeliverTx
+	if p := Recover(func() { r2 = c.DeliverEth(msg2) }); p != "" {
+		out.panicked += "tx2:" + p
+	}
+	if os.Getenv("VERIF_C09_DEBUG") != "" && r2.Code != 0 {
+		fmt.Println("   deliver tx2 log:", r2.Log)
+	}
+	r2.Log = ""
+	bz2, _ := proto.Marshal(&r2)
+	out.tx = append(out.tx, bz2...)
+	out.txOK = out.txOK && r2.Code == 0
+	out.gas2 = r2.GasUsed
 	ctx := c.Ctx()
 	fc := c.App.AccountKeeper.GetModuleAddress("fee_collector")
 	for _, a := range []sdk.AccAddress{eth.EthAddrToNibiruAddr(w.K), w.X.NibiruAddr, eth.EthAddrToNibiruAddr(w.Y), eth.EthAddrToNibiruAddr(w.Z),
@@ -545,6 +566,7 @@ func runCase(t *testing.T, in *c09Input) c09Obs {
 	return c09Obs{
 		HashEq: base.hash == with.hash, NextEq: base.next == with.next, TxEq: bytes.Equal(base.tx, with.tx),
 		TxOK: with.txOK, BaseOK: base.txOK, Base: base.bal, With: with.bal, Gas: [2]int64{base.gas, with.gas},
+		Gas2: [2]int64{base.gas2, with.gas2},
 		QRes: with.qres, QGas: with.qgas, Injected: with.injected,
 		Panic: with.panicked,
 	}
